@@ -45,6 +45,11 @@ def run_plan(plan_data, keep_events=True):
     """Run all epochs of a plan; the world is the only thing surviving between epochs."""
     plan = Plan(plan_data)
     scenario = plan_data["scenario"]
+    # caches keyed by object identity must not survive from an earlier run of this process (warm-up runs happen in the
+    # long-lived pool process, the judged runs in its forked children: a recycled id() with the same test name would
+    # otherwise bring back the objects of another scenario)
+    from travsim import graphcheck
+    graphcheck._OBJ_CACHE.clear()
     harness.install(suite_path=scenario.get("suite_path"), home=scenario.get("home"))
     sim = harness.Sim(plan, scenario)
     from travsim import gensuite
